@@ -1230,6 +1230,8 @@ fn run_subset(font: &FontRef, gids: &[u32], unicodes: &[u32], flags: u16) -> Res
 struct Viol {
     class: String,
     what: String,
+    /// the original has an HVAR table and this subset has none (the mechanism of the known finding)
+    hvar_dropped: bool,
 }
 
 /// (font, class) pairs whose detailed description has already been rendered: the textual diff is only
@@ -1261,9 +1263,10 @@ struct Outcome {
 /// Verify `out` (a subset of the original described by `fi` for request `req`/`flags`).
 fn verify(fi: &FontInfo, req: &Request, flags: u16, out: &[u8]) -> Result<Outcome, Vec<Viol>> {
     let mut viols: Vec<Viol> = vec![];
+    let hvar_dropped = std::cell::Cell::new(false);
     macro_rules! viol {
         ($class:expr, $($arg:tt)*) => {
-            viols.push(Viol { class: $class.to_string(), what: format!($($arg)*) })
+            viols.push(Viol { class: $class.to_string(), what: format!($($arg)*), hvar_dropped: hvar_dropped.get() })
         };
     }
     let orig = fi.font();
@@ -1274,6 +1277,7 @@ fn verify(fi: &FontInfo, req: &Request, flags: u16, out: &[u8]) -> Result<Outcom
             return Err(viols);
         }
     };
+    hvar_dropped.set(orig.hvar().is_ok() && sub.data_for_tag(Tag::new(b"HVAR")).is_none());
     // "opens as a font": the tables the observations need must parse
     let sub_n = match sub.maxp() {
         Ok(m) => m.num_glyphs() as u32,
@@ -1614,7 +1618,16 @@ fn case_json(fi: &FontInfo, req: &Request, flags: u16) -> Value {
 }
 
 fn report(run: &Run, fi: &FontInfo, req: &Request, flags: u16, stage: &str, v: &Viol) {
-    let short = fi.name.rsplit('/').next().unwrap_or(&fi.name);
+    let mut short = fi.name.rsplit('/').next().unwrap_or(&fi.name);
+    // A permuted-HVAR derived font stores exactly the corpus font's metrics. When the failing subset has
+    // lost its HVAR table altogether, the failure is the corpus font's known finding (klippa drops HVAR when
+    // no variation region survives) and carries the corpus font's label; every other failure of the
+    // derived font keeps the derived label.
+    if v.hvar_dropped {
+        if let Some(base) = short.strip_prefix("derived:").and_then(|s| s.strip_suffix("+permuted-hvar")) {
+            short = base;
+        }
+    }
     let id = format!("{stage}{} [{}]", v.class, short);
     IDENTITIES.lock().unwrap().get_or_insert_with(BTreeMap::new).entry(id.clone()).and_modify(|n| *n += 1).or_insert(1u64);
     let what = format!(
@@ -1634,14 +1647,14 @@ fn check_case(run: &Run, fi: &FontInfo, req: &Request, flags: u16, resubset: boo
     l.subset_calls += 1;
     let out = match run_subset(&orig, &req.gids, &req.unicodes, flags) {
         Err(p) => {
-            report(run, fi, req, flags, "", &Viol { class: format!("subset_font panic {} @{}", p.kind(), p.site()), what: p.message.clone() });
+            report(run, fi, req, flags, "", &Viol { class: format!("subset_font panic {} @{}", p.kind(), p.site()), what: p.message.clone(), hvar_dropped: false });
             l.errs += 1;
             return;
         }
         Ok(Err(e)) => {
             // "the subset opens as a font …": a request for existing glyphs/characters of a readable
             // corpus font that is answered with an error produced no font at all.
-            report(run, fi, req, flags, "", &Viol { class: format!("subset_font Err({e})"), what: "no subset produced".into() });
+            report(run, fi, req, flags, "", &Viol { class: format!("subset_font Err({e})"), what: "no subset produced".into(), hvar_dropped: false });
             l.errs += 1;
             return;
         }
@@ -1649,7 +1662,7 @@ fn check_case(run: &Run, fi: &FontInfo, req: &Request, flags: u16, resubset: boo
     };
     let o1 = match guard(|| verify(fi, req, flags, &out)) {
         Err(p) => {
-            report(run, fi, req, flags, "", &Viol { class: format!("reading the subset panics {} @{}", p.kind(), p.site()), what: p.message.clone() });
+            report(run, fi, req, flags, "", &Viol { class: format!("reading the subset panics {} @{}", p.kind(), p.site()), what: p.message.clone(), hvar_dropped: false });
             l.errs += 1;
             return;
         }
@@ -1702,17 +1715,17 @@ fn check_case(run: &Run, fi: &FontInfo, req: &Request, flags: u16, resubset: boo
     l.resubsets += 1;
     let out2 = match run_subset(&sub, &gids2, &req.unicodes, flags) {
         Err(p) => {
-            report(run, fi, req, flags, "resubset: ", &Viol { class: format!("subset_font panic {} @{}", p.kind(), p.site()), what: p.message.clone() });
+            report(run, fi, req, flags, "resubset: ", &Viol { class: format!("subset_font panic {} @{}", p.kind(), p.site()), what: p.message.clone(), hvar_dropped: false });
             return;
         }
         Ok(Err(e)) => {
-            report(run, fi, req, flags, "resubset: ", &Viol { class: format!("subset_font Err({e})"), what: "no subset produced from the subset".into() });
+            report(run, fi, req, flags, "resubset: ", &Viol { class: format!("subset_font Err({e})"), what: "no subset produced from the subset".into(), hvar_dropped: false });
             return;
         }
         Ok(Ok(o)) => o,
     };
     match guard(|| verify(fi, req, flags, &out2)) {
-        Err(p) => report(run, fi, req, flags, "resubset: ", &Viol { class: format!("reading the subset panics {} @{}", p.kind(), p.site()), what: p.message.clone() }),
+        Err(p) => report(run, fi, req, flags, "resubset: ", &Viol { class: format!("reading the subset panics {} @{}", p.kind(), p.site()), what: p.message.clone(), hvar_dropped: false }),
         Ok(Err(vs)) => {
             for v in &vs {
                 report(run, fi, req, flags, "resubset: ", v);
